@@ -267,20 +267,43 @@ func (cs *caseState) snapshot() []call {
 // verifyInvocations checks every chain invocation of `op` recorded so far against the reference model.
 // first(content) validates the content the first plugin received against what the client sent.
 func verifyInvocations(c *h.Case, cs *caseState, op string, minInvocations int, first func(map[string]any) string) {
-	calls := cs.snapshot()
-	byReq := map[string][]call{}
-	var order []string
-	for _, k := range calls {
-		if k.Op != op {
-			continue
-		}
-		if _, seen := byReq[k.ReqID]; !seen {
-			order = append(order, k.ReqID)
-		}
-		byReq[k.ReqID] = append(byReq[k.ReqID], k)
-	}
 	chain := chainOf(cs, op)
 	_, consulted := expectedOK(cs, op)
+	var calls []call
+	var byReq map[string][]call
+	var order []string
+	collect := func() (inProgress bool) {
+		calls = cs.snapshot()
+		byReq = map[string][]call{}
+		order = nil
+		for _, k := range calls {
+			if k.Op != op {
+				continue
+			}
+			if _, seen := byReq[k.ReqID]; !seen {
+				order = append(order, k.ReqID)
+			}
+			byReq[k.ReqID] = append(byReq[k.ReqID], k)
+		}
+		// a chain invocation that so far is a strict prefix of what the model expects may simply still be
+		// running (e.g. the server's replacement work connection arriving while we look): give it time
+		for _, rid := range order {
+			inv := byReq[rid]
+			if len(inv) < len(consulted) {
+				pre := true
+				for i, k := range inv {
+					if k.Plugin != consulted[i] {
+						pre = false
+					}
+				}
+				if pre {
+					return true
+				}
+			}
+		}
+		return false
+	}
+	h.Eventually(8*time.Second, func() bool { return !collect() })
 	if len(chain) > 0 && len(order) < minInvocations {
 		c.Violation("plugin-not-consulted", "operation %s was performed %d time(s) but only %d chain invocation(s) reached the plugins registered for it (%v)", op, minInvocations, len(order), chain)
 	}
